@@ -59,8 +59,8 @@ pub fn run_main(args: &[String]) {
     let index = std::fs::read_to_string(format!("{}/index.txt", dir)).unwrap();
     let mut lines = String::new();
     for l in index.lines() { let id = l.split(' ').next().unwrap(); let bytes = std::fs::read(format!("{}/{}.wasm", dir, id)).unwrap();
-        for variant in 0..4u8 {
-            let res = catch(|| -> std::result::Result<Vec<u8>, String> { let mut c = ModuleConfig::new(); c.generate_producers_section(false); if variant >= 2 { c.preserve_code_transform(true); }
+        for variant in 0..5u8 {
+            let res = catch(|| -> std::result::Result<Vec<u8>, String> { let mut c = ModuleConfig::new(); c.generate_producers_section(false); if variant == 2 || variant == 3 { c.preserve_code_transform(true); } if variant == 4 { c.generate_synthetic_names_for_anonymous_items(true); }
                 let mut m = c.parse(&bytes).map_err(|e| format!("{:#}", e))?; if variant == 1 { passes::gc::run(&mut m); } if variant == 3 { duplicate_located_instruction(&mut m); m.customs.add(CtDump { payload: vec![] }); } Ok(m.emit_wasm()) });
             let v = match res { Some(Ok(o)) => format!("ok {} {:016x}", o.len(), fnv(&o)), Some(Err(e)) => format!("err {}", e.replace('\n', " ")), None => "panic".to_string() };
             lines += &format!("{} {} {}\n", id, variant, v); } }
